@@ -614,6 +614,7 @@ func supervise(prop, tier string) int {
 	sort.Strings(keys)
 	exit := 0
 	nviol := 0
+	unreproduced := 0
 	var knownLines []string
 	for _, key := range keys {
 		res := failing[key]
@@ -631,14 +632,18 @@ func supervise(prop, tier string) int {
 		path, ok, msg := minimiseAndRecord(d, res, v, seed)
 		if !ok {
 			fmt.Fprintf(os.Stderr, "HARNESS: violation %s at run %d did not reproduce from its replay file: %s\n", v.Signature, res.Run, msg)
-			exit = 2
+			unreproduced++
 			continue
 		}
 		fmt.Printf("violation: class=%s signature=%s run=%d\n  %s\n", v.Class, v.Signature, res.Run, clip(v.Detail, 600))
 		fmt.Printf("VIOLATION property=%s replay=%s\n", prop, path)
-		if exit == 0 {
-			exit = 1
-		}
+		exit = 1
+	}
+	if exit == 0 && unreproduced > 0 {
+		// something was seen that does not replay and nothing that does: no verdict. (When other violations of the run
+		// did replay - each in a fresh process, from its own file - they stand: the tree under test may itself be
+		// nondeterministic, which makes some of its failures irreproducible without making the confirmed ones less real.)
+		exit = 2
 	}
 	for _, l := range knownLines {
 		fmt.Println(l)
